@@ -416,11 +416,16 @@ class Discharger:
                 return ('R7-const', 'negated literal')
             # -i with i: Ok(i) of base10_parse::<i128>() : i >= 0
             t = tm.term(x, s.ev.scope)
-            if contains_sub(t, lambda y: isinstance(y, tuple) and y[0] == 'mcall' and y[2] == 'base10_parse'):
-                return ('R7-neg-of-parsed-nonneg', 'operand is the Ok value of LitInt::base10_parse (non-negative), so negation cannot overflow')
+            # exactly the parsed value, with no cast in between: a cast (`n as isize`) can turn a large magnitude into T::MIN
+            if isinstance(t, tuple) and ((t[0] == 'payload' and t[1] == 'Ok' and isinstance(t[3], tuple) and t[3][0] == 'mcall' and t[3][2] == 'base10_parse')
+                                         or (t[0] == 'try' and isinstance(t[1], tuple) and t[1][0] == 'mcall' and t[1][2] == 'base10_parse')):
+                return ('R7-neg-of-parsed-nonneg', 'operand is the Ok value of LitInt::base10_parse into the negated (signed) type: it is non-negative, so negation cannot overflow')
             return None
         op = e['op']
         l, r = e['l_'], e['r_']
+        cv = [const_eval(e, w) for w in (16, 32, 64)]
+        if all(c is not None for c in cv):
+            return ('R7-const', 'constant expression, evaluated exactly for 16/32/64-bit pointer widths without leaving its type (%s)' % cv[-1][0])
         if op == '+':
             # isize::MIN + index as isize
             if es(l) in ('isize::MIN',) and r['k'] == 'Cast' and ty_s(r['ty']) == 'isize':
@@ -659,6 +664,7 @@ def run(cx, tier='quick'):
     rep.extra['discharged_by_rule'] = by_rule
     rep.extra['census'] = {k: len([s for s in sites if s.kind == k]) for k in sorted(set(s.kind for s in sites))}
     check_termination(cx, cg, fns, rep)
+    check_mir(cx, sites, rep)
     rep.floor('PANIC', 150, '(≈230 sites today)')
     rep.floor('TERM', 100)
     rep.assumptions += ['syn/quote/proc-macro2 do not panic on a valid derive input; ToTokens::to_string() output re-lexes and re-parses',
@@ -666,6 +672,153 @@ def run(cx, tier='quick'):
                         'a printed Meta starts with its path identifier followed by a one-byte delimiter (space, `(`, `=`)']
     rep.not_decided += ['panics inside syn/quote/proc-macro2', 'stack exhaustion']
     return rep
+
+
+INT_BITS = {'i8': 8, 'i16': 16, 'i32': 32, 'i64': 64, 'i128': 128, 'u8': 8, 'u16': 16, 'u32': 32, 'u64': 64, 'u128': 128}
+
+
+def _range(ty, w):
+    if ty in ('isize', 'usize'):
+        b = w
+    elif ty in INT_BITS:
+        b = INT_BITS[ty]
+    else:
+        return None
+    return (-(1 << (b - 1)), (1 << (b - 1)) - 1) if ty[0] == 'i' else (0, (1 << b) - 1)
+
+
+def const_eval(e, w):
+    """(value, type) of a constant integer expression for pointer width w, or None if not constant or if it leaves its type"""
+    k = e['k']
+    if k == 'Paren' or k == 'Group':
+        return const_eval(e['expr'], w)
+    if k == 'Lit' and e['lit']['k'] == 'Int':
+        try:
+            v = int(e['lit']['digits'])
+        except (KeyError, ValueError):
+            return None
+        return (v, e['lit'].get('suffix') or None)
+    if k == 'Path':
+        segs = es(e).split('::')
+        if len(segs) == 2 and segs[1] in ('MAX', 'MIN') and _range(segs[0], w):
+            lo, hi = _range(segs[0], w)
+            return (hi if segs[1] == 'MAX' else lo, segs[0])
+        return None
+    if k == 'Cast':
+        x = const_eval(e['expr'], w)
+        ty = ty_s(e['ty'])
+        rg = _range(ty, w)
+        if x is None or rg is None:
+            return None
+        v = x[0]
+        if x[1] is None and not (rg[0] <= v <= rg[1]):
+            return None
+        span = rg[1] - rg[0] + 1
+        v = (v - rg[0]) % span + rg[0]   # `as` wraps, it never panics
+        return (v, ty)
+    if k == 'Unary' and e.get('op') == '-':
+        x = const_eval(e['expr'], w)
+        if x is None:
+            return None
+        ty = x[1] or 'i32'
+        rg = _range(ty, w)
+        return (-x[0], x[1]) if rg and rg[0] <= -x[0] <= rg[1] else None
+    if k == 'Binary' and e['op'] in ('+', '-', '*'):
+        a, b = const_eval(e['l_'], w), const_eval(e['r_'], w)
+        if a is None or b is None:
+            return None
+        if a[1] and b[1] and a[1] != b[1]:
+            return None
+        ty = a[1] or b[1]
+        v = a[0] + b[0] if e['op'] == '+' else (a[0] - b[0] if e['op'] == '-' else a[0] * b[0])
+        rg = _range(ty or 'i32', w)
+        if not (rg[0] <= v <= rg[1]) or not (rg[0] <= a[0] <= rg[1]) or not (rg[0] <= b[0] <= rg[1]):
+            return None
+        return (v, ty)
+    return None
+
+
+def check_mir(cx, sites, rep):
+    """MIR-PANIC / MIR-LOOP: rustc's own, type-resolved view of the crate (MIR of every function and closure, all features) must not
+    contain a panic-capable terminator or a loop that the syntax-level census did not see (and therefore did not discharge)"""
+    import collections
+    from .. import mir
+    rep.explanation.append(
+        'MIR-PANIC: cross-check against rustc: tools/mirfacts (rustc_private driver under `cargo +nightly check --all-features`, nothing '
+        'is run) lists every Call terminator whose type-resolved callee is Option/Result::unwrap/expect, Index::index, core::panicking::*, '
+        'process::exit/abort or a panicking std method, and every Assert terminator (bounds, overflow, division); per function and kind '
+        'the count must not exceed the number of census sites the PANIC rule discharged. MIR-LOOP: every MIR back edge lies in a function '
+        'whose loops the TERM rule examined.')
+    rows = mir.facts(cx.repo)
+    idx = mir.FnIndex(cx)
+    M = collections.defaultdict(list)
+    for r in rows:
+        k = mir.panic_kind(r)
+        if k is None and r['k'] == 'call':
+            last = r['callee'].rsplit('::', 1)[-1]
+            root = r['callee'].lstrip('<').split('::', 1)[0]
+            if last in PANICKY_METHODS and root in ('std', 'core', 'alloc'):
+                k = 'method'
+        if k is None:
+            continue
+        f = idx.find(r['file'], r['line'])
+        if f is None:
+            rep.bad('MIR-PANIC', r['caller'], '%s@unmapped' % k, 'a panic-capable MIR terminator (%s) at %s:%d lies in no function known to the syntax model' % (r.get('callee', r.get('what')), r['file'], r['line']), r['file'], r['line'])
+            continue
+        M[(id(f), k)].append((f, r))
+    A = collections.Counter()
+    unsafe_fns = set()
+    for s_ in sites:
+        A[(id(s_.fw.fn), s_.kind)] += 1
+    for f in cx.crate.fns:
+        if any(ev.kind == 'unsafe' for ev in cx.fw(f).events):
+            unsafe_fns.add(id(f))
+    n = 0
+    for (fid, k), lst in sorted(M.items(), key=lambda kv: (kv[1][0][0].qname, kv[0][1])):
+        f = lst[0][0]
+        n += 1
+        if k == 'ptrcheck':
+            if fid in unsafe_fns or any(not r['exp'] for _, r in lst):
+                rep.bad('MIR-PANIC', f.qname, 'ptrcheck', 'pointer-validity checks in a function with user-written raw-pointer code', f.file, lst[0][1]['line'])
+            else:
+                rep.ok('MIR-PANIC', '%s|ptrcheck in std macro expansion, no unsafe code' % f.qname)
+            continue
+        have = A[(fid, k)] + (A[(fid, 'insert')] if k == 'method' else 0)
+        if len(lst) > have:
+            rep.bad('MIR-PANIC', f.qname, '%s>%d' % (k, have),
+                    'rustc resolves %d panic-capable `%s` site(s) in this function (lines %s: %s) but the syntax census saw %d: a site is hidden from the discharge rules (operator/trait dispatch, macro, alias)'
+                    % (len(lst), k, sorted(set(r['line'] for _, r in lst)), sorted(set(r.get('callee', r.get('what')) for _, r in lst))[:4], have), f.file, lst[0][1]['line'])
+        else:
+            rep.ok('MIR-PANIC', '%s|%s x%d <= census %d' % (f.qname, k, len(lst), have))
+    rep.floor('MIR-PANIC', 40, '(functions x kinds with panic-capable MIR today)')
+    # loops
+    loops_ast = collections.Counter()
+    for s_ in sites:
+        if s_.kind == 'loop':
+            loops_ast[id(s_.fw.fn)] += 1
+    for f in cx.crate.fns:
+        for ev in cx.fw(f).events:
+            if ev.kind == 'for':
+                loops_ast[id(f)] += 1
+    B = collections.defaultdict(list)
+    for r in rows:
+        if r['k'] == 'backedge':
+            f = idx.find(r['file'], r['line'])
+            if f is None:
+                rep.bad('MIR-LOOP', r['caller'], 'unmapped', 'a MIR loop at %s:%d lies in no function known to the syntax model' % (r['file'], r['line']), r['file'], r['line'])
+                continue
+            B[id(f)].append((f, r))
+    for fid, lst in sorted(B.items(), key=lambda kv: kv[1][0][0].qname):
+        f = lst[0][0]
+        own = [r for _, r in lst if not r['exp']]
+        own = list({(r['caller'], r.get('hdr')): r for r in own}.values())   # several back edges (continue, match arms) share one loop header
+        if len(own) > loops_ast[fid]:
+            rep.bad('MIR-LOOP', f.qname, 'loops>%d' % loops_ast[fid], 'rustc finds %d loops written in this function (lines %s), the syntax census %d' % (len(own), sorted(set(r['line'] for r in own)), loops_ast[fid]), f.file, f.line)
+        else:
+            rep.ok('MIR-LOOP', '%s|%d back edges <= %d loops' % (f.qname, len(own), loops_ast[fid]))
+    rep.floor('MIR-LOOP', 40)
+    rep.extra['mir'] = {'facts': len(rows), 'calls': len([r for r in rows if r['k'] == 'call']), 'asserts': len([r for r in rows if r['k'] == 'assert']),
+                        'backedges': len([r for r in rows if r['k'] == 'backedge'])}
 
 
 def ctx_hash(s):
